@@ -556,6 +556,12 @@ static Result exec_c03_c05(MVal& plan, Stats& st) {
             }
         }
     }
+    // typed decoding (replay of a narrowed truncation case; the sweep itself is further down)
+    if (explicit_modes && has_mode("entry.typed") && R.fmt == "json" && R.want()) {
+        Outcome o = R.exec("entry.typed", contig);
+        R.c05_flags(o, "entry.typed", contig);
+        if (!R.res.ok) return R.res;
+    }
     // ---- C05: stream failure at every offset; the result is the outcome of the delivered prefix, or a reported failure
     if (c05 && failsweep) {
         size_t step = L > 48 ? (L + 47) / 48 : 1;
@@ -654,7 +660,8 @@ static Result exec_c03_c05(MVal& plan, Stats& st) {
                 std::string saveB = R.B; R.B = prefix; R.cx.B = &R.B; R.expect_error = true;
                 for (int del = 0; del < 2 && R.res.ok; ++del) {
                     Delivery d; if (del == 1) { d.kind = "stream"; d.chunk = 3; d.getarea = 2; }
-                    for (const char* m : {"reader", "cursor"}) {
+                    for (const char* m : {"reader", "cursor", "entry.typed"}) {
+                        if (!strcmp(m, "entry.typed") && (!json_doc || del == 1)) continue;      // decode_json<std::map / std::vector>: JSON text, contiguous
                         if (!R.want()) continue;
                         Outcome o = R.exec(m, d);
                         R.c05_flags(o, m, d);
